@@ -29,16 +29,9 @@ func errReturned(fn *ssa.Function, call *ssa.Call) bool {
 	}
 	for _, ret := range retInstrs(fn) {
 		for _, res := range ret.Results {
-			if res == ev {
-				// direct return or return on the non-nil edge
+			// direct return, return on the non-nil edge, or returned wrapped with context
+			if typeStr(res.Type()) == "error" && errDerivedFrom(res, ev, 0) {
 				return true
-			}
-			if p, ok := res.(*ssa.Phi); ok {
-				for _, e := range p.Edges {
-					if e == ev {
-						return true
-					}
-				}
 			}
 		}
 	}
@@ -69,8 +62,15 @@ func runC20(c *Ctx) {
 		l := layoutOf(cs)
 		if len(l) == 8 {
 			ok := true
+			cond0 := ""
 			for i := 0; i < 8; i++ {
-				if l[i] != fmt.Sprintf("%d:B((time.Time).UnixMicro(arg0.Time),%d)", i, 7-i) {
+				// all eight bytes under one and the same path condition (input validation in front of the
+				// whole entry is fine; a byte written under a condition of its own is not)
+				val, cond, _ := strings.Cut(l[i], " @")
+				if i == 0 {
+					cond0 = cond
+				}
+				if val != fmt.Sprintf("%d:B((time.Time).UnixMicro(arg0.Time),%d)", i, 7-i) || cond != cond0 {
 					ok = false
 				}
 			}
@@ -112,6 +112,9 @@ func runC20(c *Ctx) {
 		tm, okT := orTerms(q.X, func(v ssa.Value) bool {
 			if a, isA := v.(*ssa.Alloc); isA && isByteArrayPtr(a.Type()) {
 				return true
+			}
+			if fa, isFA := v.(*ssa.FieldAddr); isFA && isByteArrayPtr(fa.Type()) {
+				return true // scratch array kept in the reader
 			}
 			if _, ok := staticLen(v); ok {
 				return true
